@@ -96,4 +96,7 @@ def signedDynamodb : List Bytes := signedBasic ++ [ascii "x-amz-target"]
 /-- `X-Amz-SignedHeaders=host` -/
 def signedHost : List Bytes := [ascii "host"]
 
+/-- the number a string of decimal digits denotes (`X-Amz-Expires=${expiry}`, `Content-Length`) -/
+def decimalValue (s : Bytes) : Nat := s.foldl (fun a c => 10 * a + (c.toNat - 48)) 0
+
 end Percival.Spec.AwsRequests
